@@ -354,7 +354,9 @@ def history_cases(jobs):
         byid = {m["id"]: m for m in job["world"]["methods"]}
         if job.get("argmap"):
             ns["ARG"].update({k: bw.instance(c) for k, c in job["argmap"].items()})
-        ov = Ovld()
+        # (noreplace: beyond the listed properties - Ovld(allow_replacement=False) refuses a method whose signature a
+        # registered method already has; X3 clauses of Trace_Table)
+        ov = Ovld(allow_replacement=False) if job.get("noreplace") else Ovld()
         live = []
         counters = {"tm": 0, "mtm": 0, "plain": 0}
 
@@ -376,9 +378,17 @@ def history_cases(jobs):
             for st in job["steps"]:
                 rec = dict(st)
                 if st["op"] == "register":
-                    ov.register(ns[st["m"]], priority=byid[st["m"]]["prio"])
-                    live.append(st["m"])
+                    try:
+                        ov.register(ns[st["m"]], priority=byid[st["m"]]["prio"])
+                        live.append(st["m"])
+                        rec["out"] = "ok"
+                    except TypeError as e:
+                        if not (job.get("noreplace") and str(e).startswith("There is already a method")):
+                            raise
+                        rec["out"] = "refused"
                 elif st["op"] == "unregister":
+                    if st["m"] not in live:
+                        continue      # (its registration had been refused)
                     ov.unregister(ns[st["m"]])
                     live.remove(st["m"])
                 else:
@@ -407,7 +417,7 @@ def history_cases(jobs):
         if err:
             out.append({"id": job["id"], "skip": "harness: " + err})
         else:
-            out.append({"id": job["id"], "props": job["props"], "world": job["world"], "steps": steps})
+            out.append({"id": job["id"], "props": job["props"], "world": job["world"], "steps": steps, "noreplace": bool(job.get("noreplace"))})
     return out
 
 
